@@ -164,61 +164,69 @@ class AsyncLRUCacheWrapper(Generic[P, T]):
             cache_entry = cache[self] = OrderedDict()
 
         cached_value: T | _InitialMissingType
-        try:
-            cached_value, lock, expires_at = cache_entry[key]
-        except KeyError:
-            # We're the first task to call this function
-            cached_value, lock, expires_at = (
-                initial_missing,
-                Lock(fast_acquire=not self._always_checkpoint),
-                None,
-            )
-            cache_entry[key] = cached_value, lock, expires_at
-
-        if lock is None:
-            if expires_at is not None and current_time() >= expires_at:
-                self._currsize -= 1
+        while True:
+            try:
+                cached_value, lock, expires_at = cache_entry[key]
+            except KeyError:
+                # We're the first task to call this function
                 cached_value, lock, expires_at = (
                     initial_missing,
                     Lock(fast_acquire=not self._always_checkpoint),
                     None,
                 )
                 cache_entry[key] = cached_value, lock, expires_at
-            else:
-                # The value was already cached
-                self._hits += 1
-                cache_entry.move_to_end(key)
-                if self._always_checkpoint:
-                    await checkpoint()
 
-                return cast(T, cached_value)
+            if lock is None:
+                if expires_at is not None and current_time() >= expires_at:
+                    self._currsize -= 1
+                    cached_value, lock, expires_at = (
+                        initial_missing,
+                        Lock(fast_acquire=not self._always_checkpoint),
+                        None,
+                    )
+                    cache_entry[key] = cached_value, lock, expires_at
+                else:
+                    # The value was already cached
+                    self._hits += 1
+                    cache_entry.move_to_end(key)
+                    if self._always_checkpoint:
+                        await checkpoint()
 
-        async with lock:
-            # Check if another task filled the cache while we acquired the lock
-            if (cached_value := cache_entry[key][0]) is initial_missing:
-                self._misses += 1
-                value = await self.__wrapped__(*args, **kwargs)
-                expires_at = (
-                    current_time() + self._ttl if self._ttl is not None else None
-                )
-                cache_entry[key] = value, None, expires_at
-                cache_entry.move_to_end(key)
-                self._currsize += 1
-                if self._maxsize is not None and self._currsize > self._maxsize:
-                    # Evict the least recently used result, never an entry that is
-                    # still being computed
-                    for old_key, old_entry in cache_entry.items():
-                        if old_entry[1] is None:
-                            del cache_entry[old_key]
-                            self._currsize -= 1
-                            break
-            else:
-                # Another task filled the cache while we were waiting for the lock
-                self._hits += 1
-                cache_entry.move_to_end(key)
-                value = cast(T, cached_value)
+                    return cast(T, cached_value)
 
-        return value
+            async with lock:
+                # Check what happened to the entry while we acquired the lock
+                entry = cache_entry.get(key)
+                if entry is None or (entry[1] is not None and entry[1] is not lock):
+                    # The result we were waiting for was stored and already evicted
+                    # again (and may be in the process of being recomputed by someone
+                    # else), so start over
+                    continue
+
+                if (cached_value := entry[0]) is initial_missing:
+                    self._misses += 1
+                    value = await self.__wrapped__(*args, **kwargs)
+                    expires_at = (
+                        current_time() + self._ttl if self._ttl is not None else None
+                    )
+                    cache_entry[key] = value, None, expires_at
+                    cache_entry.move_to_end(key)
+                    self._currsize += 1
+                    if self._maxsize is not None and self._currsize > self._maxsize:
+                        # Evict the least recently used result, never an entry that is
+                        # still being computed
+                        for old_key, old_entry in cache_entry.items():
+                            if old_entry[1] is None:
+                                del cache_entry[old_key]
+                                self._currsize -= 1
+                                break
+                else:
+                    # Another task filled the cache while we were waiting for the lock
+                    self._hits += 1
+                    cache_entry.move_to_end(key)
+                    value = cast(T, cached_value)
+
+            return value
 
     def __get__(
         self, instance: object, owner: type | None = None
